@@ -15,9 +15,16 @@ import (
 
 	"github.com/janelia-flyem/dvid/datastore"
 	"github.com/janelia-flyem/dvid/datatype/annotation"
+	"github.com/janelia-flyem/dvid/datatype/imageblk"
+	"github.com/janelia-flyem/dvid/datatype/imagetile"
 	"github.com/janelia-flyem/dvid/datatype/keyvalue"
+	"github.com/janelia-flyem/dvid/datatype/labelarray"
+	"github.com/janelia-flyem/dvid/datatype/labelblk"
 	"github.com/janelia-flyem/dvid/datatype/labelmap"
+	"github.com/janelia-flyem/dvid/datatype/labelsz"
+	"github.com/janelia-flyem/dvid/datatype/labelvol"
 	"github.com/janelia-flyem/dvid/datatype/neuronjson"
+	"github.com/janelia-flyem/dvid/datatype/tarsupervoxels"
 	"github.com/janelia-flyem/dvid/dvid"
 	"github.com/janelia-flyem/dvid/dvid/verifhook"
 	"github.com/janelia-flyem/dvid/storage"
@@ -281,7 +288,29 @@ func main() {
 		run.Count("parse-result:" + p.tkCls + "/" + p.idsCls + "/" + p.verCls)
 		run.Add("parse", term, jcase{Kind: "parse", Key: k, Nil: isNil, I: i, V: v, C: c}, fmt.Sprintf("parse/%x/%v", k, isNil))
 	}
+	// zyx: the ZYX index whose 12 key bytes are b (z, y, x big-endian, offset by MinInt32)
+	zyx := func(b []byte) dvid.IndexZYX {
+		z := int32(int64(binary.BigEndian.Uint32(b[0:4])) + math.MinInt32)
+		y := int32(int64(binary.BigEndian.Uint32(b[4:8])) + math.MinInt32)
+		x := int32(int64(binary.BigEndian.Uint32(b[8:12])) + math.MinInt32)
+		return dvid.IndexZYX{x, y, z}
+	}
 	addTKey := func(dt, idx int, d []byte) {
+		d = append([]byte(nil), d...)
+		// normalise the caller data to what the typed arguments can express (see Model/KeysRun.v class_table)
+		switch dt*10 + idx {
+		case 50: // plane bytes (7) ++ scale ++ 3 ++ ZYX index
+			d = pad(d, 21)
+			d[1] %= 6
+			for j := 2 + int(d[1]); j < 7; j++ {
+				d[j] = 0
+			}
+			d[8] = 3
+		case 90, 110:
+			if len(d) < 8 {
+				d = pad(d, 8)
+			}
+		}
 		cls, tk, dcls, dec := "ok", []byte(nil), "err", []byte(nil)
 		pan, _ := lib.Recover(func() {
 			var t storage.TKey
@@ -316,6 +345,56 @@ func main() {
 				t = labelmap.NewLabelIndexTKey(binary.BigEndian.Uint64(pad(d, 8)))
 			case 32:
 				t = labelmap.NewAffinitiesTKey(binary.BigEndian.Uint64(pad(d, 8)))
+			case 40:
+				t = imageblk.NewTKeyByCoord(dvid.IZYXString(d))
+				if len(d) == 12 { // the typed constructor must agree on a 12-byte coordinate
+					ix := zyx(d)
+					if t2 := imageblk.NewTKey(&ix); !bytes.Equal(t, t2) {
+						t, err = t2, fmt.Errorf("imageblk.NewTKey(idx) differs from NewTKeyByCoord")
+					}
+				}
+			case 41:
+				t = imageblk.MetaTKey()
+			case 50:
+				var plane dvid.DataShape
+				plane, err = dvid.BytesToDataShape(d[0:7])
+				if err == nil {
+					ix := zyx(d[9:21])
+					t, err = imagetile.NewTKey(dvid.ChunkPoint3d{ix[0], ix[1], ix[2]}, plane, imagetile.Scaling(d[7]))
+				}
+			case 60:
+				if len(d) == 0 {
+					d = []byte{0}
+				}
+				t = labelarray.NewBlockTKeyByCoord(d[0], dvid.IZYXString(d[1:]))
+				if len(d) == 13 {
+					ix := zyx(d[1:])
+					if t2 := labelarray.NewBlockTKey(d[0], &ix); !bytes.Equal(t, t2) {
+						t, err = t2, fmt.Errorf("labelarray.NewBlockTKey differs from NewBlockTKeyByCoord")
+					}
+				}
+			case 61:
+				t = labelarray.NewLabelIndexTKey(binary.BigEndian.Uint64(pad(d, 8)))
+			case 70:
+				t = labelblk.NewTKeyByCoord(dvid.IZYXString(d))
+				if len(d) == 12 {
+					ix := zyx(d)
+					if t2 := labelblk.NewTKey(&ix); !bytes.Equal(t, t2) {
+						t, err = t2, fmt.Errorf("labelblk.NewTKey(idx) differs from NewTKeyByCoord")
+					}
+				}
+			case 80: // body = type ++ BE32(MaxUint32 - size) ++ BE64(label)
+				b := pad(d, 13)
+				t = labelsz.NewTypeSizeLabelTKey(labelsz.IndexType(b[0]), math.MaxUint32-binary.BigEndian.Uint32(b[1:5]), binary.BigEndian.Uint64(b[5:13]))
+			case 81:
+				b := pad(d, 9)
+				t = labelsz.NewTypeLabelTKey(labelsz.IndexType(b[0]), binary.BigEndian.Uint64(b[1:9]))
+			case 90:
+				t = labelvol.NewTKey(binary.BigEndian.Uint64(d[0:8]), dvid.IZYXString(d[8:]))
+			case 110:
+				t, err = tarsupervoxels.NewTKey(binary.BigEndian.Uint64(d[0:8]), string(d[8:]))
+			default:
+				err = fmt.Errorf("no constructor for table entry %d/%d", dt, idx)
 			}
 			if err != nil {
 				cls = "err"
@@ -353,6 +432,30 @@ func main() {
 		term := fmt.Sprintf("(CTKey %d%%nat %d%%nat %s %s %s)", dt, idx, lib.CoqBytes(d), resBytes(cls, tk), resBytes(dcls, dec))
 		run.Count(fmt.Sprintf("tkey-class:%d/%d:%s", dt, idx, cls))
 		run.Add("tkey", term, jcase{Kind: "tkey", DT: dt, Idx: idx, TK: d}, fmt.Sprintf("tkey/%d/%d/%x", dt, idx, d))
+	}
+	addSplit := func(k []byte) {
+		cls, u, v, mcls, m := "ok", []byte(nil), []byte(nil), "err", []byte(nil)
+		pan, _ := lib.Recover(func() {
+			a, b, err := storage.SplitKey(storage.Key(exact(k)))
+			if err != nil {
+				cls = "err"
+				return
+			}
+			u, v = a, b
+		})
+		if pan {
+			cls = "panic"
+		}
+		if cls == "ok" {
+			if p2, _ := lib.Recover(func() { m = storage.MergeKey(storage.Key(exact(u)), exact(v)) }); p2 {
+				mcls = "panic"
+			} else {
+				mcls = "ok"
+			}
+		}
+		term := fmt.Sprintf("(CSplit %s %s %s)", lib.CoqBytes(k), lib.CoqRes(cls, pairBytes(u, v)), resBytes(mcls, m))
+		run.Count("split-result:" + cls)
+		run.Add("split", term, jcase{Kind: "split", Key: k}, fmt.Sprintf("split/%x", k))
 	}
 	addDigest := func(tk []byte) {
 		var dk, dt, dmin, dmax, du uint64
@@ -915,6 +1018,8 @@ func main() {
 			addParse(c.Key, c.Nil, c.I, c.V, c.C)
 		case "tkey":
 			addTKey(c.DT, c.Idx, c.TK)
+		case "split":
+			addSplit(c.Key)
 		case "digest":
 			addDigest(c.TK)
 		case "order":
@@ -1031,6 +1136,60 @@ func main() {
 	addTKey(2, 1, bytes.Repeat([]byte{0xFF}, 8))
 	addTKey(2, 2, bytes.Repeat([]byte{0}, 12))
 	addTKey(2, 2, bytes.Repeat([]byte{0xFF}, 12))
+	// round 4: every other datatype's constructors.  Coordinates: 00.. = MinInt32, 7fffffff = -1, 80000000 = 0,
+	// ff.. = MaxInt32; labels 0, 1, 2^63, 2^64-1.
+	coords := [][]byte{bytes.Repeat([]byte{0}, 12), bytes.Repeat([]byte{0xFF}, 12),
+		{0x7F, 0xFF, 0xFF, 0xFF, 0x7F, 0xFF, 0xFF, 0xFF, 0x7F, 0xFF, 0xFF, 0xFF},
+		{0x80, 0, 0, 0, 0x80, 0, 0, 0, 0x80, 0, 0, 0},
+		{0x80, 0, 0, 1, 0x7F, 0xFF, 0xFF, 0xFE, 0, 0, 0, 0}, rng.Bytes(12)}
+	labels := [][]byte{bytes.Repeat([]byte{0}, 8), {0, 0, 0, 0, 0, 0, 0, 1}, {0x80, 0, 0, 0, 0, 0, 0, 0}, bytes.Repeat([]byte{0xFF}, 8),
+		{0, 0, 0, 0, 0, 0, 0, 9}, {0, 0, 0, 0, 0, 0, 0, 10}, {0, 0, 0, 0, 0x3B, 0x9A, 0xCA, 0x00}, rng.Bytes(8)}
+	cat := func(bs ...[]byte) []byte { return bytes.Join(bs, nil) }
+	for _, c := range coords {
+		addTKey(4, 0, c)
+		addTKey(7, 0, c)
+		addTKey(6, 0, cat([]byte{byte(rng.Intn(8))}, c))
+		addTKey(5, 0, cat([]byte{3, 2, byte(rng.Intn(3)), byte(rng.Intn(3)), 0, 0, 0, byte(rng.Intn(10)), 3}, c))
+		addTKey(9, 0, cat(labels[rng.Intn(len(labels))], c))
+	}
+	addTKey(5, 0, cat([]byte{2, 5, 1, 2, 3, 4, 5, 255, 3}, coords[2])) // a plane that is not 3d: first byte is not the class byte
+	addTKey(4, 1, nil)
+	for _, n := range []int{0, 1, 5, 11, 13, 20} { // coordinate strings of the wrong length go through unchecked
+		addTKey(4, 0, rng.Bytes(n))
+		addTKey(7, 0, rng.Bytes(n))
+		addTKey(9, 0, rng.Bytes(8+n))
+		addTKey(6, 0, rng.Bytes(1+n))
+	}
+	addTKey(4, 0, []byte("a"))
+	addTKey(4, 0, []byte("ab"))
+	for _, l := range labels {
+		addTKey(6, 1, l)
+		addTKey(8, 0, cat([]byte{byte(rng.Intn(6))}, rng.Bytes(4), l))
+		addTKey(8, 1, cat([]byte{byte(rng.Intn(6))}, l))
+		addTKey(9, 0, l)
+		addTKey(11, 0, cat(l, []byte("dat")))
+	}
+	addTKey(11, 0, cat(labels[1], []byte("a")))
+	addTKey(11, 0, cat(labels[1], []byte("ab")))
+	addTKey(11, 0, cat(labels[3], nil))
+	addTKey(11, 0, cat(labels[3], []byte{0, 0xFF, '.'}))
+	// SplitKey / MergeKey: constructed keys over the grid and the TKey corpus, metadata and blob keys, malformed keys
+	for _, tk := range tkeyCorpus() {
+		i, v, c := grid[rng.Intn(len(grid))], grid[rng.Intn(len(grid))], grid[rng.Intn(len(grid))]
+		ctx := ctxFor(i, v)
+		_, k := update(ctx.ConstructKey(storage.TKey(tk)), i, v, c)
+		addSplit(k)
+		addSplit(ctx.TombstoneKey(storage.TKey(tk)))
+		addSplit(append([]byte{0}, tk...))
+		addSplit(append([]byte{2}, tk...))
+	}
+	addSplit(nil)
+	for n := 1; n <= 10; n++ {
+		addSplit(append([]byte{1}, rng.Bytes(n-1)...))
+	}
+	for n := 0; n < 12; n++ {
+		addSplit(rng.Bytes(1 + rng.Intn(20)))
+	}
 
 	// real badger store: order
 	nOrd := 2
@@ -1082,7 +1241,7 @@ func main() {
 	run.Extra["grid"] = grid
 	run.Extra["digest_points_per_case"] = 49*4 + 343
 	run.Finish("c06case",
-		"boundary grid {0,1,255,256,2^31,2^32-2,2^32-1}^3 literally with one TKey, per axis with the TKey corpus (empty, 0x00/0xFF runs, prefix pairs, datatype keys), the whole cube x corpus by digest, random ids/TKeys; malformed keys; datatype constructors; RawRangeQuery order on badger; storage-level drop/DeleteAll/prefix/mixed scenarios over neighbouring instance ids; HTTP A/B histories with deletion and re-creation incl. instance ids wrapping at 2^32; delete-and-recreate-at-once rounds with the deletion goroutine held before it removes the instance by name; instance life cycles with restarts (complete and interrupted deletion of the highest id, re-creation under the same name, emptiness of every new instance by raw dump); distinct by (kind, inputs)",
+		"boundary grid {0,1,255,256,2^31,2^32-2,2^32-1}^3 literally with one TKey, per axis with the TKey corpus (empty, 0x00/0xFF runs, prefix pairs, datatype keys), the whole cube x corpus by digest, random ids/TKeys; malformed keys; every datatype package's TKey constructors (generated table; MinInt32/-1/0/MaxInt32 coordinates, labels 0/1/2^63/2^64-1, wrong-length coordinate strings); SplitKey/MergeKey on constructed, metadata, blob and malformed keys; RawRangeQuery order on badger; storage-level drop/DeleteAll/prefix/mixed scenarios over neighbouring instance ids; HTTP A/B histories with deletion and re-creation incl. instance ids wrapping at 2^32; delete-and-recreate-at-once rounds with the deletion goroutine held before it removes the instance by name; instance life cycles with restarts (complete and interrupted deletion of the highest id, re-creation under the same name, emptiness of every new instance by raw dump); distinct by (kind, inputs)",
 		tail)
 }
 
